@@ -44,7 +44,7 @@ func genWalCase(c *vf.Ctx, cfg string, idx int) *walCase {
 		}
 		return rows
 	}
-	victim := mk(1 + r.IntN(4))
+	victim := mk(1 + r.IntN(3))
 	switch idx % 5 {
 	case 0:
 		wc.Shape = "only-record"
@@ -150,9 +150,10 @@ func runWalCase(c *vf.Ctx, env *walEnv, wc *walCase) {
 	}
 	recLen := len(data) - start
 
+	// one replay directory per worker: the shim overwrites its only wal file every time
+	rdir := filepath.Join(env.dir, "replay")
 	replay := func(b []byte) (*engine.VerifWalReplayResult, error, any) {
-		d := env.fresh()
-		defer os.RemoveAll(d)
+		d := rdir
 		var res *engine.VerifWalReplayResult
 		var rerr error
 		p := vf.Catch(func() { res, rerr = engine.VerifReplayWalBytes(d, b) })
@@ -175,18 +176,27 @@ func runWalCase(c *vf.Ctx, env *walEnv, wc *walCase) {
 		c.Sample(map[string]any{"part": "wal", "shape": wc.Shape, "records": len(bins), "rows": len(res.Rows), "file_bytes": len(data), "last_record_bytes": recLen})
 	}
 
-	// every strict prefix of the last record (sampled when the record is long)
+	// every strict prefix of the last record. In the quick tier three cases out of four replay a
+	// sample instead: every cut inside the first 24 and the last 16 bytes plus ~100 spread over the body.
+	all := c.Thorough() || wc.Idx%4 == 0 || recLen <= 160
 	step := 1
-	if recLen > 1200 {
-		step = recLen / 600
+	if !all {
+		step = (recLen-40)/100 + 1
 	}
-	for cut := 0; cut < recLen; cut += step {
+	if all {
+		c.Count("wal-records-cut-at-every-byte", 1)
+	}
+	for cut := 0; cut < recLen; {
 		at := cut
-		if step > 1 && cut > 8 {
+		if step > 1 && cut >= 24 && cut < recLen-16 {
 			at += env.rnd.IntN(step)
-			if at >= recLen {
-				break
+			cut += step
+			if at >= recLen-16 {
+				cut = recLen - 16
+				continue
 			}
+		} else {
+			cut++
 		}
 		res, rerr, p := replay(data[:start+at])
 		where := cutClass(at)
@@ -223,8 +233,19 @@ func runWalCase(c *vf.Ctx, env *walEnv, wc *walCase) {
 		mut := append([]byte(nil), data...)
 		old := mut[start+pos]
 		nb := byte(env.rnd.IntN(256))
+		if pos == 1 || pos == 2 {
+			// replay allocates the declared length before it reads: keep it below 1 MiB + 64 KiB here
+			// (a damaged high length byte makes the real code allocate up to 4 GiB, see SENSITIVITY.md)
+			nb = byte(env.rnd.IntN(17))
+			if pos == 1 {
+				nb = 0
+			}
+		}
 		if nb == old {
-			nb ^= 1 << uint(env.rnd.IntN(8))
+			if pos == 1 {
+				continue
+			}
+			nb ^= 1 << uint(env.rnd.IntN(4))
 		}
 		mut[start+pos] = nb
 		rec := mut[start:]
